@@ -23,6 +23,7 @@ ASSUMPTIONS = [
 
 VECTORS = [
     {},
+    {"compact": True},
     {"inline_functions": False},
     {"use_push_pop_functions": True},
     {"inline_functions": False, "use_push_pop_functions": True, "remove_labels": True},
@@ -66,6 +67,7 @@ def check_case(case, stats=None, K=oracle.K_QUICK, known=None):
             continue
         m = ic10vm.Machine(res["code"], env, tables.enum_tables(), max_steps=compare.vm_budget(it.steps), max_effects=K)
         rm = diag.RegionMonitor(m, recmap, stop_on_fallthrough=True)
+        tm = diag.TagMonitor(m, recmap)
         detail = {"env_seed": es, "code": res["code"], "opts": opts}
         try:
             m.run()
@@ -80,12 +82,17 @@ def check_case(case, stats=None, K=oracle.K_QUICK, known=None):
         if fell:
             m.halted = "end"
         kind, d = compare.compare_src_vm(it, m)
-        if kind == "mismatch" and ("d5-arg-shape" in case.get("features", []) or "nested-def" in case.get("features", [])):
+        if kind == "mismatch" and "d5-arg-shape" in case.get("features", []):
             kind = "skipped"
             if stats is not None:
-                stats.discarded["source-comparison-skipped(F-D5/F-D36 shape)"] += 1
+                stats.discarded["source-comparison-skipped(F-D5 shape)"] += 1
         if kind == "mismatch":
             sig, extra = oracle.attribute(res, es, case["pool"], compare.vm_budget(it.steps), K)
+            if tm.clobbers and (sig is None or sig.startswith("C07:fallthrough")):
+                # the expected fall-through (F-D1) hides the register clobber that explains the difference
+                sig, extra = oracle.clobber_signature(tm.clobbers[0]), {"clobber": tm.clobbers[0]}
+            if sig and sig.startswith("C04:clobber"):
+                sig += oracle.clobber_shape_suffix(srcs, sig)
             if sig is None or sig.startswith("C07:fallthrough"):
                 sig = "C07:trace-differs-before-main-ends:" + d["what"] if it.halted == "end" else "C01:mismatch:" + d["what"]
             raise Violation(sig, dict(detail, compare=d, root=extra,
@@ -112,7 +119,7 @@ def cases(draw):
     # d5_args: the region/halting oracle does not depend on source semantics, so the aliasing shape of
     # open finding F-D5 (a writable global passed by bare name) may be generated; for such programs the
     # comparison with the source interpreter is skipped
-    cfg = programs.Cfg(terminating_main=True, terminating_with_funcs=True, main_stmts=3, max_funcs=3, d5_args=draw(programs.st.booleans()), nested_defs=True)
+    cfg = programs.Cfg(terminating_main=True, terminating_with_funcs=True, main_stmts=3, max_funcs=3, d5_args=draw(programs.st.integers(0, 2)) > 0, nested_defs=True)
     c = draw(programs.program_cases(cfg))
     c["opts"] = VECTORS[draw(programs.st.integers(0, len(VECTORS) - 1))]
     return c
